@@ -514,9 +514,7 @@ func (lr *limitReader) Read(p []byte) (int, error) {
 	}
 
 	if lr.n == 0 {
-		err := fmt.Errorf("read limited at %v bytes", lr.limit.Load())
-		lr.c.writeError(StatusMessageTooBig, err)
-		return 0, err
+		return 0, lr.exceeded()
 	}
 
 	if int64(len(p)) > lr.n {
@@ -527,5 +525,17 @@ func (lr *limitReader) Read(p []byte) (int, error) {
 	if lr.n < 0 {
 		lr.n = 0
 	}
+	if lr.n == 0 && (errors.Is(err, io.EOF) || errors.Is(err, io.ErrUnexpectedEOF)) {
+		// The byte that takes the message over the limit arrived together with
+		// the end of the message, as flate readers return their last bytes.
+		// There will be no further Read to report it.
+		err = lr.exceeded()
+	}
 	return n, err
+}
+
+func (lr *limitReader) exceeded() error {
+	err := fmt.Errorf("read limited at %v bytes", lr.limit.Load())
+	lr.c.writeError(StatusMessageTooBig, err)
+	return err
 }
